@@ -1,3 +1,5 @@
 import Audit.Tool
 import Adb.Props.C02
+import Adb.Props.C02Host
 #audit_module Adb.Props.C02
+#audit_module Adb.Props.C02Host
